@@ -426,7 +426,7 @@ Ltac leaf_alloc W Eq :=
     let W' := fresh "W'" in let E' := fresh "E'" in let L' := fresh "L'" in let K' := fresh "K'" in
     destruct (alloc_post o k W I) as (W' & E' & L' & K');
     split; [exact W'|]; split; [exact E'|]; split; [lia|]; split;
-    [rewrite (cond_true_eq _ _ (wf_graph _ W')); unfold cond_step; rewrite K' | try (intros _); try (apply IvLeaf; rewrite K'; reflexivity)]
+    [rewrite (cond_true_eq _ _ (wf_graph _ W')); unfold cond_step; rewrite K' | try (intros _; apply IvLeaf; rewrite K'; reflexivity); try (apply IvLeaf; rewrite K'; reflexivity)]
   end.
 
 Lemma invert_spec : forall fuel o n o' m,
@@ -515,7 +515,7 @@ Proof.
   intros W L.
   assert (D : (exists cs, kind_of o n = NAll cs /\ conn_children_all o n = cs) \/ conn_children_all o n = [n])
     by (unfold conn_children_all; destruct (kind_of o n); eauto).
-  destruct D as [(cs & K & ->)|->].
+  destruct D as [(cs & K & ->) | ->].
   - assert (N := wf_node _ W n). rewrite K in N. destruct N as [Ne Lt]. split; [intros c Hc; specialize (Lt c Hc); lia|].
     split; auto. split.
     + rewrite (cond_true_eq o n) by auto. unfold cond_step. now rewrite K.
@@ -530,7 +530,7 @@ Proof.
   intros W L.
   assert (D : (exists cs, kind_of o n = NAny cs /\ conn_children_any o n = cs) \/ conn_children_any o n = [n])
     by (unfold conn_children_any; destruct (kind_of o n); eauto).
-  destruct D as [(cs & K & ->)|->].
+  destruct D as [(cs & K & ->) | ->].
   - assert (N := wf_node _ W n). rewrite K in N. destruct N as [Ne Lt]. split; [intros c Hc; specialize (Lt c Hc); lia|].
     split; auto. split.
     + rewrite (cond_true_eq o n) by auto. unfold cond_step. now rewrite K.
@@ -627,6 +627,6 @@ Proof.
   - (* Not *) destruct (mk_notif o w) as [o1 na] eqn:Ea.
     apply andb_true_iff in OK. destruct OK as [OK Hi].
     destruct (IHw _ _ _ W OK Ea) as (W1 & E1 & L1 & T1 & I1).
-    destruct (invert_spec _ _ _ _ _ (Nat.lt_succ_r _ _ |> proj2 <| Nat.lt_le_incl _ _ L1) W1 (I1 Hi) Eq) as (W' & E' & L' & T' & I').
+    destruct (invert_spec _ _ _ _ _ (Nat.lt_lt_succ_r _ _ L1) W1 (I1 Hi) Eq) as (W' & E' & L' & T' & I').
     split; [exact W'|]. split; [eauto using ext_trans|]. split; [exact L'|]. split; [now rewrite T', T1|auto].
 Qed.
